@@ -1,3 +1,651 @@
+/-
+  Helper lemmas for C18 (file error model): the reader only depends on the tokens of the
+  non-comment lines; specification of `pull`, `readHeader`, `skip`, `openModel`, `generate` in terms
+  of that token stream.
+-/
 import QecVerif.Model.FileEM
 namespace Qec.FileEM
+
+/-- tokens of the non-comment, non-blank lines, in file order -/
+def sigToks (lines : List Line) : List Tok :=
+  (lines.filter fun l => !isCommentOrBlank l.raw).map (·.tok)
+
+theorem sigToks_cons_comment {l : Line} {ls : List Line} (h : isCommentOrBlank l.raw = true) :
+    sigToks (l :: ls) = sigToks ls := by
+  simp [sigToks, h]
+
+theorem sigToks_cons_sig {l : Line} {ls : List Line} (h : isCommentOrBlank l.raw = false) :
+    sigToks (l :: ls) = l.tok :: sigToks ls := by
+  simp [sigToks, h]
+
+theorem sigToks_length_le (ls : List Line) : (sigToks ls).length ≤ ls.length := by
+  simp only [sigToks, List.length_map]; exact List.length_filter_le _ _
+
+theorem sigToks_filter (ls : List Line) :
+    sigToks (ls.filter fun l => !isCommentOrBlank l.raw) = sigToks ls := by
+  simp [sigToks, List.filter_filter]
+
+/-! ### `pull` -/
+
+theorem go_nil : ∀ ls, sigToks ls = [] → pull.go ls = (.error .eof, ⟨[], []⟩)
+  | [], _ => by simp [pull.go]
+  | l :: ls, h => by
+    by_cases hc : isCommentOrBlank l.raw = true
+    · rw [sigToks_cons_comment hc] at h
+      simp only [pull.go, hc, if_true]; exact go_nil ls h
+    · rw [sigToks_cons_sig (by simpa using hc)] at h; cases h
+
+theorem go_cons : ∀ ls t ts, sigToks ls = t :: ts → ∃ ls', sigToks ls' = ts ∧
+    pull.go ls = ((if t = .invalid then .error .value else .ok t), ⟨[], ls'⟩)
+  | [], _, _, h => by cases h
+  | l :: ls, t, ts, h => by
+    by_cases hc : isCommentOrBlank l.raw = true
+    · rw [sigToks_cons_comment hc] at h
+      obtain ⟨ls', h1, h2⟩ := go_cons ls t ts h
+      exact ⟨ls', h1, by simp only [pull.go, hc, if_true]; exact h2⟩
+    · have hc' : isCommentOrBlank l.raw = false := by simpa using hc
+      rw [sigToks_cons_sig hc'] at h
+      injection h with h1 h2
+      refine ⟨ls, h2, ?_⟩
+      subst h1
+      simp only [pull.go, hc']
+      cases l.tok <;> simp
+
+/-- the token stream a reader will serve: push-back stack, then the significant lines -/
+def toks (rd : Reader) : List Tok := rd.buffer ++ sigToks rd.rest
+
+theorem pull_nobuf (ls : List Line) : pull ⟨[], ls⟩ = pull.go ls := by
+  simp [pull]
+
+theorem pull_toks_nil (rd : Reader) (h : toks rd = []) : pull rd = (.error .eof, ⟨[], []⟩) := by
+  obtain ⟨b, r⟩ := rd
+  simp only [toks, List.append_eq_nil_iff] at h
+  obtain ⟨hb, hr⟩ := h
+  subst hb
+  rw [pull_nobuf]; exact go_nil r hr
+
+theorem pull_toks_cons (rd : Reader) (t : Tok) (ts : List Tok) (h : toks rd = t :: ts)
+    (ht : t ≠ .invalid) : ∃ rd', pull rd = (.ok t, rd') ∧ toks rd' = ts := by
+  obtain ⟨b, r⟩ := rd
+  cases b with
+  | nil =>
+    simp only [toks, List.nil_append] at h
+    obtain ⟨ls', h1, h2⟩ := go_cons r t ts h
+    refine ⟨⟨[], ls'⟩, ?_, by simpa [toks] using h1⟩
+    rw [pull_nobuf, h2, if_neg ht]
+  | cons t' b' =>
+    simp only [toks, List.cons_append, List.cons.injEq] at h
+    obtain ⟨rfl, h2⟩ := h
+    exact ⟨⟨b', r⟩, by simp [pull], by simpa [toks] using h2⟩
+
+/-- end of file is sticky: an EOF outcome leaves the empty reader -/
+theorem pull_eof_state (rd : Reader) (h : (pull rd).1 = .error .eof) : (pull rd).2 = ⟨[], []⟩ := by
+  cases ht : toks rd with
+  | nil => rw [pull_toks_nil rd ht]
+  | cons t ts =>
+    exfalso
+    obtain ⟨b, r⟩ := rd
+    cases b with
+    | nil =>
+      simp only [toks, List.nil_append] at ht
+      obtain ⟨ls', _, h2⟩ := go_cons r t ts ht
+      rw [pull_nobuf, h2] at h
+      by_cases hi : t = .invalid <;> simp [hi] at h
+    | cons t' b' => simp [pull] at h
+
+/-! ### `openModel` unfolded: header, then `finish` -/
+
+/-- everything `openModel` does after the header has been read -/
+def finish (st : Nat) (rd : Reader) (hdr : List (String × HVal)) : Except Err Model :=
+  match (popKey "probability" hdr).1 with
+  | none => .error .value
+  | some (.null) => .error .type
+  | some (.other _) => .error .type
+  | some (.str _) => .error .value
+  | some (.num p) =>
+    match (popKey "label" (popKey "probability" hdr).2).1 with
+    | none => .error .value
+    | some label =>
+      match skip st rd with
+      | .error e => .error e
+      | .ok rd' =>
+        if openModel.chk (popKey "probability_distribution" (popKey "label" (popKey "probability" hdr).2).2).2 []
+        then .ok { rd := rd', p := p, label := label,
+                   dist := (popKey "probability_distribution" (popKey "label" (popKey "probability" hdr).2).2).1,
+                   extras := (popKey "probability_distribution" (popKey "label" (popKey "probability" hdr).2).2).2 }
+        else .error .value
+
+theorem openModel_eq (lines : List Line) (st : Int) :
+    openModel lines (some st) =
+      if st < 0 then .error .value else
+      match readHeader (lines.length + 1) { buffer := [], rest := lines } [] with
+      | .error e => .error e
+      | .ok (rd, hdr) => finish st.toNat rd hdr := by
+  unfold openModel finish
+  simp only
+  split
+  · rfl
+  · cases readHeader (lines.length + 1) { buffer := [], rest := lines } [] with
+    | error e => rfl
+    | ok x => rfl
+
+/-! ### header keys -/
+
+theorem noclash_of_nodup {acc o : List (String × HVal)} (h : ((acc ++ o).map (·.1)).Nodup) :
+    o.any (fun kv => acc.any (fun h => h.1 == kv.1)) = false := by
+  rw [Bool.eq_false_iff]
+  intro hany
+  rw [List.any_eq_true] at hany
+  obtain ⟨kv, hkv, h2⟩ := hany
+  rw [List.any_eq_true] at h2
+  obtain ⟨h', hh', heq⟩ := h2
+  have heq' : h'.1 = kv.1 := by simpa using heq
+  rw [List.map_append, List.nodup_append] at h
+  exact h.2.2 h'.1 (List.mem_map_of_mem hh') kv.1 (List.mem_map_of_mem hkv) heq'
+
+theorem nodup_of_noclash {acc o : List (String × HVal)} (h1 : (acc.map (·.1)).Nodup)
+    (h2 : (o.map (·.1)).Nodup) (h : o.any (fun kv => acc.any (fun h => h.1 == kv.1)) = false) :
+    ((acc ++ o).map (·.1)).Nodup := by
+  rw [List.map_append, List.nodup_append]
+  refine ⟨h1, h2, ?_⟩
+  intro a ha b hb hab
+  rw [List.mem_map] at ha hb
+  obtain ⟨x, hx, rfl⟩ := ha
+  obtain ⟨y, hy, rfl⟩ := hb
+  have : o.any (fun kv => acc.any (fun h => h.1 == kv.1)) = true := by
+    rw [List.any_eq_true]
+    refine ⟨y, hy, ?_⟩
+    rw [List.any_eq_true]
+    exact ⟨x, hx, by simpa using hab⟩
+  rw [h] at this; cases this
+
+/-! ### `readHeader` on a token stream `objects ++ rest` -/
+
+/-- pairwise distinct keys: all header objects are accumulated, the first non-object is pushed back -/
+theorem readHeader_nodup : ∀ (hdrs : List (List (String × HVal))) (f : Nat) (ls : List Line)
+    (acc : List (String × HVal)) (rest : List Tok),
+    sigToks ls = hdrs.map Tok.obj ++ rest → (∀ t ∈ rest.head?, ∀ kvs, t ≠ Tok.obj kvs) →
+    ((acc ++ hdrs.flatten).map (·.1)).Nodup → hdrs.length < f →
+    ∃ ls', sigToks ls' = rest.tail ∧ readHeader f ⟨[], ls⟩ acc =
+      match rest with
+      | [] => .error .eof
+      | t :: _ => if t = .invalid then .error .value else .ok (⟨[t], ls'⟩, acc ++ hdrs.flatten)
+  | [], f, ls, acc, rest, hsig, hrest, _, hf => by
+    obtain ⟨f, rfl⟩ : ∃ f', f = f' + 1 := ⟨f - 1, by simp at hf; omega⟩
+    simp only [List.map_nil, List.nil_append] at hsig
+    cases rest with
+    | nil => exact ⟨[], rfl, by simp [readHeader, pull_nobuf, go_nil ls hsig]⟩
+    | cons t ts =>
+      obtain ⟨ls', h1, h2⟩ := go_cons ls t ts hsig
+      refine ⟨ls', h1, ?_⟩
+      by_cases hi : t = .invalid
+      · subst hi; simp [readHeader, pull_nobuf, h2]
+      · have hno := hrest t (by simp)
+        cases t with
+        | obj kvs => exact absurd rfl (hno kvs)
+        | invalid => exact absurd rfl hi
+        | entry b l => simp [readHeader, pull_nobuf, h2, push]
+        | bad => simp [readHeader, pull_nobuf, h2, push]
+  | o :: os, f, ls, acc, rest, hsig, hrest, hk, hf => by
+    obtain ⟨f, rfl⟩ : ∃ f', f = f' + 1 := ⟨f - 1, by simp at hf; omega⟩
+    simp only [List.map_cons, List.cons_append] at hsig
+    obtain ⟨ls1, h1, h2⟩ := go_cons ls _ _ hsig
+    simp only [List.flatten_cons, ← List.append_assoc] at hk
+    have hk' : ((acc ++ o).map (·.1)).Nodup := by
+      rw [List.map_append] at hk; exact (List.nodup_append.mp hk).1
+    obtain ⟨ls', h3, h4⟩ := readHeader_nodup os f ls1 (acc ++ o) rest h1 hrest hk (by simp at hf; omega)
+    refine ⟨ls', h3, ?_⟩
+    simp only [readHeader, pull_nobuf, h2, reduceCtorEq, if_false, noclash_of_nodup hk',
+      Bool.false_eq_true, List.flatten_cons, ← List.append_assoc]
+    exact h4
+
+/-- a key repeated in two different header objects is refused -/
+theorem readHeader_clash : ∀ (hdrs : List (List (String × HVal))) (f : Nat) (ls : List Line)
+    (acc : List (String × HVal)) (rest : List Tok),
+    sigToks ls = hdrs.map Tok.obj ++ rest → (acc.map (·.1)).Nodup → (∀ o ∈ hdrs, (o.map (·.1)).Nodup) →
+    ¬ ((acc ++ hdrs.flatten).map (·.1)).Nodup → hdrs.length < f →
+    readHeader f ⟨[], ls⟩ acc = .error .value
+  | [], _, _, acc, _, _, hacc, _, hnd, _ => by simp at hnd; exact absurd hacc hnd
+  | o :: os, f, ls, acc, rest, hsig, hacc, hobj, hnd, hf => by
+    obtain ⟨f, rfl⟩ : ∃ f', f = f' + 1 := ⟨f - 1, by simp at hf; omega⟩
+    simp only [List.map_cons, List.cons_append] at hsig
+    obtain ⟨ls1, h1, h2⟩ := go_cons ls _ _ hsig
+    simp only [readHeader, pull_nobuf, h2, reduceCtorEq, if_false]
+    by_cases hc : o.any (fun kv => acc.any (fun h => h.1 == kv.1)) = true
+    · simp [hc]
+    · have hc' : o.any (fun kv => acc.any (fun h => h.1 == kv.1)) = false := by simpa using hc
+      rw [if_neg hc]
+      have hacc' := nodup_of_noclash hacc (hobj o (by simp)) hc'
+      apply readHeader_clash os f ls1 (acc ++ o) rest h1 hacc' (fun o' ho' => hobj o' (by simp [ho']))
+      · simpa [List.flatten_cons, List.append_assoc] using hnd
+      · simp at hf; omega
+
+/-! ### `skip` -/
+
+theorem skip_ok : ∀ (n : Nat) (rd : Reader) (ts : List Tok), toks rd = ts → (∀ t ∈ ts, t ≠ Tok.invalid) →
+    n ≤ ts.length → ∃ rd', skip n rd = .ok rd' ∧ toks rd' = ts.drop n
+  | 0, rd, ts, h, _, _ => ⟨rd, rfl, by simpa using h⟩
+  | n + 1, rd, ts, h, hv, hn => by
+    cases ts with
+    | nil => simp at hn
+    | cons t ts =>
+      obtain ⟨rd1, h1, h2⟩ := pull_toks_cons rd t ts h (hv t (by simp))
+      obtain ⟨rd', h3, h4⟩ := skip_ok n rd1 ts h2 (fun t' ht' => hv t' (by simp [ht'])) (by simpa using hn)
+      exact ⟨rd', by simp only [skip, h1]; exact h3, by simpa using h4⟩
+
+theorem skip_eof : ∀ (n : Nat) (rd : Reader) (ts : List Tok), toks rd = ts → (∀ t ∈ ts, t ≠ Tok.invalid) →
+    ts.length < n → skip n rd = .error .eof
+  | 0, _, _, _, _, hn => by simp at hn
+  | n + 1, rd, ts, h, hv, hn => by
+    cases ts with
+    | nil => simp only [skip, pull_toks_nil rd h]
+    | cons t ts =>
+      obtain ⟨rd1, h1, h2⟩ := pull_toks_cons rd t ts h (hv t (by simp))
+      simp only [skip, h1]
+      exact skip_eof n rd1 ts h2 (fun t' ht' => hv t' (by simp [ht'])) (by simpa using hn)
+
+/-! ### popping keys off a header with pairwise distinct keys -/
+
+theorem find_key_of_mem : ∀ (l : List (String × HVal)) (k : String) (v : HVal),
+    (l.map (·.1)).Nodup → (k, v) ∈ l → l.find? (·.1 == k) = some (k, v)
+  | [], _, _, _, h => by cases h
+  | x :: xs, k, v, hnd, h => by
+    simp only [List.map_cons, List.nodup_cons] at hnd
+    rcases List.mem_cons.mp h with rfl | h'
+    · simp
+    · have hne : x.1 ≠ k := fun e => hnd.1 (e ▸ List.mem_map_of_mem (f := (·.1)) h')
+      have hne' : (x.1 == k) = false := by simpa using hne
+      simp only [List.find?_cons, hne']
+      exact find_key_of_mem xs k v hnd.2 h'
+
+theorem find_key_none (l : List (String × HVal)) (k : String) (h : k ∉ l.map (·.1)) :
+    l.find? (·.1 == k) = none := by
+  rw [List.find?_eq_none]
+  intro x hx hxk
+  have e : x.1 = k := by simpa using hxk
+  exact h (e ▸ List.mem_map_of_mem (f := (·.1)) hx)
+
+theorem nodup_rm (l : List (String × HVal)) (k : String) (h : (l.map (·.1)).Nodup) :
+    (((popKey k l).2).map (·.1)).Nodup :=
+  List.Nodup.sublist (List.Sublist.map _ List.filter_sublist) h
+
+theorem mem_rm (l : List (String × HVal)) (k : String) (kv : String × HVal) :
+    kv ∈ (popKey k l).2 ↔ kv ∈ l ∧ kv.1 ≠ k := by
+  simp [popKey, List.mem_filter]
+
+theorem popKey_some (l : List (String × HVal)) (k : String) (v : HVal) (h : (l.map (·.1)).Nodup)
+    (hm : (k, v) ∈ l) : (popKey k l).1 = some v := by
+  simp [popKey, find_key_of_mem l k v h hm]
+
+theorem popKey_none (l : List (String × HVal)) (k : String) (h : k ∉ l.map (·.1)) :
+    (popKey k l).1 = none := by
+  simp only [popKey, find_key_none l k h, Option.map_none]
+
+/-- the `probability_distribution` header value (if any) -/
+def distOf (F : List (String × HVal)) : Option HVal :=
+  (popKey "probability_distribution" (popKey "label" (popKey "probability" F).2).2).1
+/-- the extra header entries -/
+def extrasOf (F : List (String × HVal)) : List (String × HVal) :=
+  (popKey "probability_distribution" (popKey "label" (popKey "probability" F).2).2).2
+
+theorem mem_extrasOf (F : List (String × HVal)) (kv : String × HVal) :
+    kv ∈ extrasOf F ↔ (kv ∈ F ∧ kv.1 ≠ "probability" ∧ kv.1 ≠ "label" ∧ kv.1 ≠ "probability_distribution") := by
+  simp only [extrasOf, mem_rm]; constructor
+  · rintro ⟨⟨⟨a, b⟩, c⟩, d⟩; exact ⟨a, b, c, d⟩
+  · rintro ⟨a, b, c, d⟩; exact ⟨⟨⟨a, b⟩, c⟩, d⟩
+
+theorem nodup_extrasOf (F : List (String × HVal)) (h : (F.map (·.1)).Nodup) :
+    ((extrasOf F).map (·.1)).Nodup :=
+  nodup_rm _ _ (nodup_rm _ _ (nodup_rm _ _ h))
+
+theorem distOf_some (F : List (String × HVal)) (d : HVal) (h : (F.map (·.1)).Nodup)
+    (hm : ("probability_distribution", d) ∈ F) : distOf F = some d := by
+  apply popKey_some _ _ _ (nodup_rm _ _ (nodup_rm _ _ h))
+  rw [mem_rm, mem_rm]
+  exact ⟨⟨hm, by simp⟩, by simp⟩
+
+theorem distOf_none (F : List (String × HVal)) (h : ∀ d, ("probability_distribution", d) ∉ F) :
+    distOf F = none := by
+  apply popKey_none
+  intro hmem
+  rw [List.mem_map] at hmem
+  obtain ⟨kv, hkv, hk⟩ := hmem
+  rw [mem_rm, mem_rm] at hkv
+  obtain ⟨k, v⟩ := kv
+  simp only at hk; subst hk
+  exact h v hkv.1.1
+
+/-! ### the attribute-name check -/
+
+theorem chk_true : ∀ (l : List (String × HVal)) (seen : List String),
+    (∀ kv ∈ l, attrNameOk kv.1 = true ∧ kv.1 ∉ takenNames ∧ kv.1 ∉ seen) → (l.map (·.1)).Nodup →
+    openModel.chk l seen = true
+  | [], _, _, _ => rfl
+  | kv :: r, seen, h, hnd => by
+    simp only [List.map_cons, List.nodup_cons] at hnd
+    obtain ⟨h1, h2, h3⟩ := h kv (by simp)
+    have ih := chk_true r (kv.1 :: seen) (fun kv' hkv' => by
+      obtain ⟨a, b, c⟩ := h kv' (by simp [hkv'])
+      refine ⟨a, b, ?_⟩
+      intro hc
+      rcases List.mem_cons.mp hc with e | e
+      · exact hnd.1 (e ▸ List.mem_map_of_mem (f := (·.1)) hkv')
+      · exact c e) hnd.2
+    simp [openModel.chk, h1, h2, h3, ih]
+
+theorem chk_false : ∀ (l : List (String × HVal)) (seen : List String),
+    (∃ kv ∈ l, attrNameOk kv.1 = false ∨ kv.1 ∈ takenNames) → openModel.chk l seen = false
+  | [], _, ⟨_, h, _⟩ => by cases h
+  | kv :: r, seen, ⟨kv', hmem, hbad⟩ => by
+    rcases List.mem_cons.mp hmem with rfl | h'
+    · rcases hbad with hb | hb <;> simp [openModel.chk, hb]
+    · simp [openModel.chk, chk_false r (kv.1 :: seen) ⟨kv', h', hbad⟩]
+
+/-! ### `finish` / `openModel` on well-formed input -/
+
+theorem finish_wf (F : List (String × HVal)) (body : List (List Nat × Nat)) (p : Rat) (label : HVal)
+    (rd : Reader) (st : Nat) (hk : (F.map (·.1)).Nodup) (hp : ("probability", HVal.num p) ∈ F)
+    (hl : ("label", label) ∈ F) (hrd : toks rd = body.map fun b => Tok.entry b.1 b.2) :
+    (st ≤ body.length → ∃ rd', toks rd' = (body.drop st).map (fun b => Tok.entry b.1 b.2) ∧
+      finish st rd F = if openModel.chk (extrasOf F) [] then
+        .ok { rd := rd', p := p, label := label, dist := distOf F, extras := extrasOf F }
+        else .error .value) ∧
+    (body.length < st → finish st rd F = .error .eof) := by
+  have e1 : (popKey "probability" F).1 = some (.num p) := popKey_some F _ _ hk hp
+  have e2 : (popKey "label" (popKey "probability" F).2).1 = some label :=
+    popKey_some _ _ _ (nodup_rm _ _ hk) ((mem_rm _ _ _).mpr ⟨hl, by simp⟩)
+  have hv : ∀ t ∈ body.map (fun b => Tok.entry b.1 b.2), t ≠ Tok.invalid := by
+    intro t ht; rw [List.mem_map] at ht; obtain ⟨b, _, rfl⟩ := ht; simp
+  constructor
+  · intro hst
+    obtain ⟨rd', h3, h4⟩ := skip_ok st rd _ hrd hv (by simpa using hst)
+    refine ⟨rd', by rw [h4, List.map_drop], ?_⟩
+    simp only [finish, e1, e2, h3, distOf, extrasOf]
+    rfl
+  · intro hst
+    have h3 := skip_eof st rd _ hrd hv (by simpa using hst)
+    simp only [finish, e1, e2, h3]
+
+theorem finish_missing (F : List (String × HVal)) (rd : Reader) (st : Nat) (hk : (F.map (·.1)).Nodup)
+    (hmiss : "probability" ∉ F.map (·.1) ∨
+      ((∃ p, ("probability", HVal.num p) ∈ F) ∧ "label" ∉ F.map (·.1))) :
+    finish st rd F = .error .value := by
+  rcases hmiss with h | ⟨⟨p, hp⟩, h⟩
+  · simp only [finish, popKey_none F _ h]
+  · have e1 : (popKey "probability" F).1 = some (.num p) := popKey_some F _ _ hk hp
+    have e2 : (popKey "label" (popKey "probability" F).2).1 = none := by
+      apply popKey_none
+      intro hmem
+      rw [List.mem_map] at hmem
+      obtain ⟨kv, hkv, hk'⟩ := hmem
+      exact h (List.mem_map.mpr ⟨kv, ((mem_rm _ _ _).mp hkv).1, hk'⟩)
+    simp only [finish, e1, e2]
+
+theorem fuel_ok (lines : List Line) (hdr : List (List (String × HVal))) (rest : List Tok)
+    (hsig : sigToks lines = hdr.map Tok.obj ++ rest) : hdr.length < lines.length + 1 := by
+  have := sigToks_length_le lines
+  rw [hsig] at this; simp at this; omega
+
+theorem open_wf (lines : List Line) (hdr : List (List (String × HVal))) (body : List (List Nat × Nat))
+    (p : Rat) (label : HVal)
+    (hsig : sigToks lines = hdr.map Tok.obj ++ body.map fun b => Tok.entry b.1 b.2)
+    (hk : (hdr.flatten.map (·.1)).Nodup)
+    (hp : ("probability", HVal.num p) ∈ hdr.flatten) (hl : ("label", label) ∈ hdr.flatten)
+    (hb : 1 ≤ body.length) (start : Nat) :
+    (start ≤ body.length → ∃ rd', toks rd' = (body.drop start).map (fun b => Tok.entry b.1 b.2) ∧
+      openModel lines (some (start : Int)) = if openModel.chk (extrasOf hdr.flatten) [] then
+        .ok { rd := rd', p := p, label := label, dist := distOf hdr.flatten, extras := extrasOf hdr.flatten }
+        else .error .value) ∧
+    (body.length < start → openModel lines (some (start : Int)) = .error .eof) := by
+  cases body with
+  | nil => simp at hb
+  | cons b0 bt =>
+    obtain ⟨ls', h1, h2⟩ := readHeader_nodup hdr (lines.length + 1) lines [] _ hsig
+      (by simp) (by simpa using hk) (fuel_ok lines hdr _ hsig)
+    simp only [List.map_cons, reduceCtorEq, if_false, List.nil_append, List.tail_cons] at h1 h2
+    have hrd : toks ⟨[Tok.entry b0.1 b0.2], ls'⟩ = (b0 :: bt).map fun b => Tok.entry b.1 b.2 := by
+      simp [toks, h1]
+    have hneg : ¬ ((start : Int) < 0) := by omega
+    rw [openModel_eq, if_neg hneg, h2]
+    simp only [Int.toNat_natCast]
+    exact finish_wf hdr.flatten (b0 :: bt) p label _ start hk hp hl hrd
+
+theorem open_nobody (lines : List Line) (hdr : List (List (String × HVal)))
+    (hsig : sigToks lines = hdr.map Tok.obj) (hk : (hdr.flatten.map (·.1)).Nodup) (start : Nat) :
+    openModel lines (some (start : Int)) = .error .eof := by
+  obtain ⟨ls', _, h2⟩ := readHeader_nodup hdr (lines.length + 1) lines [] [] (by simpa using hsig)
+    (by simp) (by simpa using hk) (fuel_ok lines hdr [] (by simpa using hsig))
+  have hneg : ¬ ((start : Int) < 0) := by omega
+  rw [openModel_eq, if_neg hneg, h2]
+
+/-! ### `generate` against the recorded body -/
+
+theorem generate_step (m : Model) (body : List (List Nat × Nat)) (k n : Nat)
+    (h : toks m.rd = (body.drop k).map fun b => Tok.entry b.1 b.2) :
+    (generate m n m.p).1 = (match body[k]? with
+      | some b => if (unpack b).length = 2 * n then .ok (unpack b) else .error .value
+      | none => .error .eof) ∧
+    toks (generate m n m.p).2.rd = (body.drop (k + 1)).map (fun b => Tok.entry b.1 b.2) ∧
+    (generate m n m.p).2.p = m.p := by
+  cases hd : body.drop k with
+  | nil =>
+    rw [hd] at h
+    have hk : body.length ≤ k := List.drop_eq_nil_iff.mp hd
+    have h0 : body[k]? = none := List.getElem?_eq_none hk
+    have h1 : body.drop (k + 1) = [] := List.drop_eq_nil_iff.mpr (by omega)
+    simp [generate, pull_toks_nil m.rd h, h0, h1, toks, sigToks]
+  | cons b bs =>
+    rw [hd] at h
+    obtain ⟨rd', h1, h2⟩ := pull_toks_cons m.rd _ _ h (by simp)
+    have h0 : body[k]? = some b := by
+      have := List.getElem?_drop (xs := body) (i := k) (j := 0)
+      rw [hd] at this; simpa using this.symm
+    have h3 : body.drop (k + 1) = bs := by
+      have := List.drop_drop (l := body) (i := 1) (j := k)
+      rw [hd] at this; simpa [Nat.add_comm] using this.symm
+    simp only [generate, ne_eq, not_true_eq_false, if_false, h1, h0, h3]
+    by_cases hl : (unpack (b.1, b.2)).length = 2 * n
+    · simp [hl, h2]
+    · simp [hl, h2]
+
+/-! ### only the significant tokens matter (comments are irrelevant) -/
+
+/-- two readers that will serve the same tokens -/
+def REq (rd rd' : Reader) : Prop := rd.buffer = rd'.buffer ∧ sigToks rd.rest = sigToks rd'.rest
+
+/-- same error, or related values -/
+def ExRel {α β : Type} (R : α → β → Prop) : Except Err α → Except Err β → Prop
+  | .error e, .error e' => e = e'
+  | .ok a, .ok b => R a b
+  | _, _ => False
+
+/-- two models that differ at most in comment lines still to be read -/
+def MEq (m m' : Model) : Prop :=
+  REq m.rd m'.rd ∧ m.p = m'.p ∧ m.label = m'.label ∧ m.dist = m'.dist ∧ m.extras = m'.extras
+
+theorem REq.toks_eq {rd rd' : Reader} (h : REq rd rd') : toks rd = toks rd' := by
+  simp only [toks, h.1, h.2]
+
+theorem pull_congr {rd rd' : Reader} (h : REq rd rd') :
+    (pull rd).1 = (pull rd').1 ∧ REq (pull rd).2 (pull rd').2 := by
+  obtain ⟨b, r⟩ := rd
+  obtain ⟨b', r'⟩ := rd'
+  obtain ⟨hb, hr⟩ := h
+  simp only at hb hr
+  subst hb
+  cases b with
+  | nil =>
+    rw [pull_nobuf, pull_nobuf]
+    cases hs : sigToks r with
+    | nil => rw [go_nil r hs, go_nil r' (hr ▸ hs)]; exact ⟨rfl, rfl, rfl⟩
+    | cons t ts =>
+      obtain ⟨l1, a1, a2⟩ := go_cons r t ts hs
+      obtain ⟨l2, b1, b2⟩ := go_cons r' t ts (hr ▸ hs)
+      rw [a2, b2]; exact ⟨rfl, rfl, by simp only [a1, b1]⟩
+  | cons t b => exact ⟨by simp [pull], by simp [pull, REq, hr]⟩
+
+theorem pull_size (rd : Reader) (t : Tok) (h : (pull rd).1 = .ok t) :
+    (toks (pull rd).2).length + 1 = (toks rd).length := by
+  obtain ⟨b, r⟩ := rd
+  cases b with
+  | nil =>
+    rw [pull_nobuf] at h ⊢
+    cases hs : sigToks r with
+    | nil => rw [go_nil r hs] at h; cases h
+    | cons t' ts =>
+      obtain ⟨l1, a1, a2⟩ := go_cons r t' ts hs
+      rw [a2]; simp [toks, a1, hs]
+  | cons t' b => simp [pull, toks]
+
+theorem readHeader_congr : ∀ (f f' : Nat) (rd rd' : Reader) (acc : List (String × HVal)),
+    REq rd rd' → (toks rd).length < f → (toks rd).length < f' →
+    ExRel (fun x y => REq x.1 y.1 ∧ x.2 = y.2) (readHeader f rd acc) (readHeader f' rd' acc)
+  | 0, _, _, _, _, _, hf, _ => by simp at hf
+  | _ + 1, 0, _, _, _, _, _, hf' => by simp at hf'
+  | f + 1, f' + 1, rd, rd', acc, h, hf, hf' => by
+    obtain ⟨hc1, hc2⟩ := pull_congr h
+    have hsz := pull_size rd
+    simp only [readHeader]
+    rcases hp : pull rd with ⟨r1, rd1⟩
+    rcases hp' : pull rd' with ⟨r2, rd2⟩
+    rw [hp, hp'] at hc1 hc2
+    rw [hp] at hsz
+    simp only at hc1 hc2 hsz
+    subst hc1
+    cases r1 with
+    | error e => simp [ExRel]
+    | ok t =>
+      have hsz' := hsz t rfl
+      cases t with
+      | obj kvs =>
+        by_cases hcl : kvs.any (fun kv => acc.any (fun h => h.1 == kv.1)) = true
+        · simp [hcl, ExRel]
+        · simp only [hcl, Bool.false_eq_true, if_false]
+          exact readHeader_congr f f' rd1 rd2 (acc ++ kvs) hc2 (by omega) (by omega)
+      | entry b l => simp [ExRel, push, REq, hc2.1, hc2.2]
+      | bad => simp [ExRel, push, REq, hc2.1, hc2.2]
+      | invalid => simp [ExRel, push, REq, hc2.1, hc2.2]
+
+theorem skip_congr : ∀ (n : Nat) (rd rd' : Reader), REq rd rd' → ExRel REq (skip n rd) (skip n rd')
+  | 0, _, _, h => by simpa [skip, ExRel] using h
+  | n + 1, rd, rd', h => by
+    obtain ⟨hc1, hc2⟩ := pull_congr h
+    simp only [skip]
+    rcases hp : pull rd with ⟨r1, rd1⟩
+    rcases hp' : pull rd' with ⟨r2, rd2⟩
+    rw [hp, hp'] at hc1 hc2
+    simp only at hc1 hc2
+    subst hc1
+    cases r1 with
+    | error e => simp [ExRel]
+    | ok t => exact skip_congr n rd1 rd2 hc2
+
+theorem finish_congr (st : Nat) (rd rd' : Reader) (F : List (String × HVal)) (h : REq rd rd') :
+    ExRel MEq (finish st rd F) (finish st rd' F) := by
+  unfold finish
+  cases (popKey "probability" F).1 with
+  | none => simp [ExRel]
+  | some v =>
+    cases v with
+    | null => simp [ExRel]
+    | str s => simp [ExRel]
+    | other s => simp [ExRel]
+    | num p =>
+      cases (popKey "label" (popKey "probability" F).2).1 with
+      | none => simp [ExRel]
+      | some lab =>
+        have hs := skip_congr st rd rd' h
+        cases h3 : skip st rd with
+        | error e =>
+          cases h4 : skip st rd' with
+          | error e' => rw [h3, h4] at hs; simpa [ExRel] using hs
+          | ok r' => rw [h3, h4] at hs; simp [ExRel] at hs
+        | ok r =>
+          cases h4 : skip st rd' with
+          | error e' => rw [h3, h4] at hs; simp [ExRel] at hs
+          | ok r' =>
+            rw [h3, h4] at hs
+            simp only [ExRel] at hs
+            simp only
+            split
+            · simp [ExRel, MEq, hs]
+            · simp [ExRel]
+
+/-- `openModel` depends on the lines only through their significant tokens -/
+theorem open_congr (l1 l2 : List Line) (start : Option Int) (h : sigToks l1 = sigToks l2) :
+    ExRel MEq (openModel l1 start) (openModel l2 start) := by
+  cases start with
+  | none => simp [openModel, ExRel]
+  | some s =>
+    rw [openModel_eq, openModel_eq]
+    by_cases hs : s < 0
+    · simp [hs, ExRel]
+    · rw [if_neg hs, if_neg hs]
+      have hr : REq ⟨[], l1⟩ ⟨[], l2⟩ := ⟨rfl, h⟩
+      have hl1 := sigToks_length_le l1
+      have hl2 := sigToks_length_le l2
+      have hh := readHeader_congr (l1.length + 1) (l2.length + 1) ⟨[], l1⟩ ⟨[], l2⟩ [] hr
+        (by simp only [toks, List.nil_append]; omega)
+        (by simp only [toks, List.nil_append]; rw [h]; omega)
+      cases h1 : readHeader (l1.length + 1) ⟨[], l1⟩ [] with
+      | error e =>
+        cases h2 : readHeader (l2.length + 1) ⟨[], l2⟩ [] with
+        | error e' => rw [h1, h2] at hh; simpa [ExRel] using hh
+        | ok x' => rw [h1, h2] at hh; simp [ExRel] at hh
+      | ok x =>
+        cases h2 : readHeader (l2.length + 1) ⟨[], l2⟩ [] with
+        | error e' => rw [h1, h2] at hh; simp [ExRel] at hh
+        | ok x' =>
+          rw [h1, h2] at hh
+          simp only [ExRel] at hh
+          obtain ⟨rd, F⟩ := x
+          obtain ⟨rd', F'⟩ := x'
+          simp only at hh
+          obtain ⟨hh1, rfl⟩ := hh
+          exact finish_congr s.toNat rd rd' F hh1
+
+theorem generate_congr (m m' : Model) (n : Nat) (p : Rat) (h : MEq m m') :
+    (generate m n p).1 = (generate m' n p).1 ∧ MEq (generate m n p).2 (generate m' n p).2 := by
+  obtain ⟨rd, p0, lab, d, ex⟩ := m
+  obtain ⟨rd', p0', lab', d', ex'⟩ := m'
+  obtain ⟨h0, h1, h2, h3, h4⟩ := h
+  simp only at h0 h1 h2 h3 h4
+  subst h1 h2 h3 h4
+  obtain ⟨hc1, hc2⟩ := pull_congr h0
+  unfold generate
+  simp only
+  by_cases hp : p ≠ p0
+  · rw [if_pos hp, if_pos hp]; exact ⟨rfl, h0, rfl, rfl, rfl, rfl⟩
+  · rw [if_neg hp, if_neg hp]
+    rcases hq : pull rd with ⟨r1, rd1⟩
+    rcases hq' : pull rd' with ⟨r2, rd2⟩
+    rw [hq, hq'] at hc1 hc2
+    simp only at hc1 hc2
+    subst hc1
+    cases r1 with
+    | error e => exact ⟨rfl, hc2, rfl, rfl, rfl, rfl⟩
+    | ok t =>
+      cases t with
+      | entry b l =>
+        simp only
+        split
+        · exact ⟨rfl, hc2, rfl, rfl, rfl, rfl⟩
+        · exact ⟨rfl, hc2, rfl, rfl, rfl, rfl⟩
+      | obj kvs => exact ⟨rfl, hc2, rfl, rfl, rfl, rfl⟩
+      | bad => exact ⟨rfl, hc2, rfl, rfl, rfl, rfl⟩
+      | invalid => exact ⟨rfl, hc2, rfl, rfl, rfl, rfl⟩
+
+theorem ExRel_MEq_map (a b : Except Err Model) (h : ExRel MEq a b) :
+    a.map (fun m => (m.p, m.label, m.dist, m.extras)) = b.map (fun m => (m.p, m.label, m.dist, m.extras)) := by
+  cases a with
+  | error e => cases b with
+    | error e' => simp only [ExRel] at h; subst h; rfl
+    | ok m' => simp [ExRel] at h
+  | ok m => cases b with
+    | error e' => simp [ExRel] at h
+    | ok m' =>
+      simp only [ExRel] at h
+      obtain ⟨_, h1, h2, h3, h4⟩ := h
+      simp [Except.map, h1, h2, h3, h4]
+
 end Qec.FileEM
